@@ -264,7 +264,7 @@ def main():
     ap.add_argument("--replay")
     ap.add_argument("--runs", type=int)
     ap.add_argument("--budget", type=int)
-    ap.add_argument("--workers", type=int, default=16)
+    ap.add_argument("--workers", type=int, default=int(os.environ.get("VERIF_WORKERS", "16")))
     ap.add_argument("--race", action="store_true", help="only the race-visible build")
     ap.add_argument("--norace", action="store_true", help="skip the race-visible build")
     ap.add_argument("--keep", action="store_true")
